@@ -641,3 +641,4 @@ def run(prog, rep, tier, snap):
     r06_4(prog, rep)
     rep.rule("R06.5", "reload filter agrees with the rename target; owner keyword read back", 5)
     r06_5(prog, rep)
+READY = True
